@@ -4,6 +4,7 @@ XLoop
   * gives deterministic names to tasks the code under test creates without a name (asyncio's default
     'Task-N' counter is process-global, which would make state hashes differ between executions);
   * does not compute state hashes for choice points of a replayed prefix (the explorer never reads them);
+  * optional `fifo_plumbing`: asyncio's own callbacks keep their FIFO order among themselves (see step());
   * optional partial-order reduction: `independent(handle) -> bool` may declare a runnable callback
     independent of every other transition that can happen before it runs (typically asyncio plumbing
     such as "copy the result of this future into that one and schedule the waiter").  Such a callback is
@@ -22,7 +23,9 @@ class XLoop(vloop.VLoop):
         self._anon = 0
         self.anon_prefix = 'anon'
         self.independent = None
+        self.fifo_plumbing = False
         self.reduced_steps = 0
+        self._hidden = ()
 
     def create_task(self, coro, *, name=None, context=None):
         if name is None:
@@ -36,25 +39,54 @@ class XLoop(vloop.VLoop):
             return None
         return super().full_state()
 
+    def sched_state(self):
+        s = super().sched_state()
+        if self._hidden:
+            return s + (tuple(self._label(h) for h in self._hidden if not h._cancelled),)
+        return s
+
     def step(self):
+        """`fifo_plumbing`: callbacks that are not task steps (future done-callbacks, timer callbacks: asyncio's own
+        plumbing) keep asyncio's FIFO order among themselves -- only the oldest one competes with the task steps.
+        Real asyncio never reorders two queued callbacks; the explorer's freedom models unknown I/O latency of the
+        harness bodies, which are all task steps.  `independent`: see module docstring (applied to the oldest one)."""
         ind = self.independent
-        if ind is not None:
-            self._due_timers_to_ready()
-            for idx, h in enumerate(self._ready):
-                if h._cancelled:
-                    continue
-                if ind(h):
-                    if idx:
-                        del self._ready[idx]
-                        self._ready.appendleft(h)
-                    saved = self.reorder_ready
-                    self.reorder_ready = False
-                    self.reduced_steps += 1
-                    try:
-                        return super().step()
-                    finally:
-                        self.reorder_ready = saved
-        return super().step()
+        if ind is None and not self.fifo_plumbing:
+            return super().step()
+        self._due_timers_to_ready()
+        plumb = [h for h in self._ready if not h._cancelled and not is_task_step(h)]
+        if not plumb:
+            return super().step()
+        first = plumb[0]
+        if ind is not None and ind(first):
+            self._ready.remove(first)
+            self._ready.appendleft(first)
+            saved = self.reorder_ready
+            self.reorder_ready = False
+            self.reduced_steps += 1
+            try:
+                return super().step()
+            finally:
+                self.reorder_ready = saved
+        if not self.fifo_plumbing or len(plumb) == 1:
+            return super().step()
+        hidden = plumb[1:]
+        hid = {id(h) for h in hidden}
+        orig = list(self._ready)
+        visible = [h for h in orig if id(h) not in hid]
+        vis = {id(h) for h in visible}
+        self._ready.clear()
+        self._ready.extend(visible)
+        self._hidden = tuple(hidden)
+        try:
+            return super().step()
+        finally:
+            self._hidden = ()
+            now = list(self._ready)
+            left = {id(h) for h in now if id(h) in vis}
+            new = [h for h in now if id(h) not in vis]
+            self._ready.clear()
+            self._ready.extend([h for h in orig if id(h) in hid or id(h) in left] + new)
 
 
 def is_task_step(h) -> bool:
